@@ -1214,7 +1214,7 @@ async def subscribe_handler(service: UpnpServerService, request: Request) -> Res
             return Response(status=400)
 
     subscriber = None
-    if sid:
+    if sid is not None:
         subscriber = service.get_subscriber(sid)
         if subscriber:
             subscriber.timeout = timeout_val
